@@ -23,6 +23,11 @@ type Tol struct {
 	RoundWidth bool
 	// IgnoreDate skips the creation date.
 	IgnoreDate bool
+	// PerGlyph, if set, gives the absolute coordinate tolerance for a glyph
+	// (argument: the expected glyph).
+	PerGlyph func(g *type1.Glyph) float64
+	// DateToSecond compares creation times by their Unix seconds.
+	DateToSecond bool
 }
 
 func near(a, b, abs, rel float64) bool {
@@ -58,6 +63,9 @@ func DiffGlyph(name string, a, b *type1.Glyph, tol Tol) string {
 	}
 	if len(a.Cmds) != len(b.Cmds) {
 		return fmt.Sprintf("glyph %q: %d commands, want %d\n got  %v\n want %v", name, len(b.Cmds), len(a.Cmds), cmdsString(b.Cmds), cmdsString(a.Cmds))
+	}
+	if tol.PerGlyph != nil {
+		tol.Coord = tol.PerGlyph(a)
 	}
 	for i := range a.Cmds {
 		ca, cb := a.Cmds[i], b.Cmds[i]
@@ -193,7 +201,11 @@ func DiffFont(a, b *type1.Font, tol Tol) string {
 		return fmt.Sprintf("ForceBold = %v, want %v", pb.ForceBold, pa.ForceBold)
 	}
 	if !tol.IgnoreDate {
-		if !a.CreationDate.Equal(b.CreationDate) {
+		if tol.DateToSecond && !a.CreationDate.IsZero() && !b.CreationDate.IsZero() {
+			if a.CreationDate.Unix() != b.CreationDate.Unix() {
+				return fmt.Sprintf("CreationDate = %v, want %v", b.CreationDate, a.CreationDate)
+			}
+		} else if !a.CreationDate.Equal(b.CreationDate) {
 			return fmt.Sprintf("CreationDate = %v, want %v", b.CreationDate, a.CreationDate)
 		}
 	}
